@@ -32,8 +32,13 @@ def gen_scalar(r):
     return r.choice([True, False])
 
 
-def gen_value(r, depth):
+ML_TEXTS = ["first line\n# not a comment, a heading\nlast line", "#hashtag\n[not.a.table]\nkey = \"value\"", "a\n\n  b  \n"]
+
+
+def gen_value(r, depth, multiline=False):
     c = r.random()
+    if multiline and c < 0.08:
+        return {"ml": r.choice(ML_TEXTS)}  # a multi-line basic string (user documents only)
     if c < 0.7:
         return gen_scalar(r)
     if c < 0.85:
@@ -61,21 +66,21 @@ def gen_doc(r, depth=0, maxdepth=3):
     return d
 
 
-def mutate_doc(r, d, depth=0):
+def mutate_doc(r, d, depth=0, multiline=False):
     """One user/upgrade edit: add, remove, change type, table<->scalar, recurse."""
     d = copy.deepcopy(d)
     c = r.random()
-    tables = [k for k, v in d.items() if isinstance(v, dict) and not v.get("inline")]
+    tables = [k for k, v in d.items() if isinstance(v, dict) and not v.get("inline") and "ml" not in v]
     if tables and c < 0.35 and depth < 3:
         k = r.choice(sorted(tables))
-        d[k] = mutate_doc(r, d[k], depth + 1)
+        d[k] = mutate_doc(r, d[k], depth + 1, multiline)
     elif c < 0.55:
-        d[r.choice(KEYS)] = gen_value(r, depth)
+        d[r.choice(KEYS)] = gen_value(r, depth, multiline)
     elif c < 0.7 and d:
         del d[r.choice(sorted(d))]
     elif c < 0.8 and d:
         k = r.choice(sorted(d))
-        d[k] = gen_scalar(r) if isinstance(d[k], dict) else (gen_doc(r, depth + 1, 3) if depth < 3 else gen_scalar(r))
+        d[k] = gen_scalar(r) if isinstance(d[k], dict) and "ml" not in d[k] else (gen_doc(r, depth + 1, 3) if depth < 3 else gen_scalar(r))
     elif c < 0.9 and depth < 3:
         d[r.choice(TABLES)] = gen_doc(r, depth + 1, 3)
     else:
@@ -134,6 +139,8 @@ def _tval(v):
         return _tstr(v)
     if isinstance(v, list):
         return "[" + ", ".join(_tval(x) for x in v) + "]"
+    if isinstance(v, dict) and "ml" in v:
+        return '"""\n' + v["ml"].replace("\\", "\\\\").replace('"""', '\\"\\"\\"') + '"""'
     if isinstance(v, dict) and v.get("inline"):
         return "{ " + ", ".join("%s = %s" % (_tkey(k), _tval(x)) for k, x in v["v"].items()) + " }"
     raise HarnessError("cannot emit %r" % (v,))
@@ -143,7 +150,7 @@ def emit(d, r=None, path=()):
     """TOML text with every value on one line; comments and blank lines sprinkled by r."""
     lines = []
     for k, v in d.items():
-        if isinstance(v, dict) and not v.get("inline"):
+        if isinstance(v, dict) and not v.get("inline") and "ml" not in v:
             continue
         if r is not None and r.random() < 0.15:
             lines.append("# a comment about %s" % k)
@@ -152,7 +159,7 @@ def emit(d, r=None, path=()):
             line += "  # trailing"
         lines.append(line)
     for k, v in d.items():
-        if isinstance(v, dict) and not v.get("inline"):
+        if isinstance(v, dict) and not v.get("inline") and "ml" not in v:
             if r is not None and r.random() < 0.5:
                 lines.append("")
             lines.append("[" + ".".join(_tkey(p) for p in path + (k,)) + "]")
@@ -323,7 +330,7 @@ class C20(Check):
                     # start from the defaults' shape (overlapping keys) or from scratch (disjoint keys)
                     ud = mutate_doc(ur, dd) if ur.random() < 0.7 else gen_doc(ur)
                 for _k in range(ur.randrange(1, 4)):
-                    ud = mutate_doc(ur, ud)
+                    ud = mutate_doc(ur, ud, multiline=True)
                 utext = emit(ud, ur)
                 steps.append({"op": "user_write", "text": utext})
             elif c < 0.76 and ud is not None:
